@@ -51,7 +51,7 @@ def show(t):
         if t[0]=='sc': return 'σ(%s)'%t[1]
         if t[0]=='int': return str(t[1])
         if t[0]=='par': return 'arg%d'%t[1]
-        if t[0]=='mulc': return '%d*%s'%(t[2],show(t[1]))
+        if t[0]=='mulc': return '%s*%s'%(t[2],show(t[1]))
         if t[0]=='ncast': return 'as_u%d(%s)'%(t[2],show(t[1]))
         return '%s(%s)'%(t[0],','.join(show(x) for x in t[1:]))
     return str(t)
@@ -95,6 +95,7 @@ def nonneg0(facts,t):
         if t[0]=='absdiff': return True
         if t[0]=='cast': return nonneg0(facts,t[1])
         if t[0]=='ncast': return True
+        if t[0]=='satsub': return True
         if t[0]=='add': return nonneg0(facts,t[1]) and nonneg0(facts,t[2])
     return False
 def nonneg(facts,t):
@@ -165,12 +166,71 @@ def lin(t,facts):
             elif f[2]==rep and repr(f[1])<repr(rep): rep=f[1]
     if rep!=t: return lin(rep,facts)
     return {t:1}
+def in_span(d,vecs):
+    """is the linear form d a rational combination of the forms in vecs (all known to be zero)?"""
+    keys=sorted(set(d)|set().union(*[set(v) for v in vecs]),key=repr)
+    rows=[[v.get(k,Fraction(0)) for k in keys] for v in vecs]
+    tgt=[d.get(k,Fraction(0)) for k in keys]
+    # gaussian elimination on rows; reduce tgt along the way
+    piv=0
+    for c in range(len(keys)):
+        pr=None
+        for r in range(piv,len(rows)):
+            if rows[r][c]!=0: pr=r; break
+        if pr is None: continue
+        rows[piv],rows[pr]=rows[pr],rows[piv]
+        pv=rows[piv][c]
+        rows[piv]=[x/pv for x in rows[piv]]
+        for r in range(len(rows)):
+            if r!=piv and rows[r][c]!=0:
+                f=rows[r][c]; rows[r]=[x-f*y for x,y in zip(rows[r],rows[piv])]
+        if tgt[c]!=0:
+            f=tgt[c]; tgt=[x-f*y for x,y in zip(tgt,rows[piv])]
+        piv+=1
+        if piv==len(rows): break
+    return all(x==0 for x in tgt)
+def atom_bounds(facts):
+    """lower/upper integer bounds of atoms read off le/lt/eq facts against integer constants"""
+    lo={}; hi={}
+    def isint(t): return isinstance(t,tuple) and t and t[0]=='int'
+    for f in facts:
+        if f[0] not in('le','lt','eq'): continue
+        a,b=f[1],f[2]
+        strict=1 if f[0]=='lt' else 0
+        if isint(a) and not isint(b):
+            lo[b]=max(lo.get(b,a[1]+strict),a[1]+strict)
+            if f[0]=='eq': hi[b]=min(hi.get(b,a[1]),a[1])
+        elif isint(b) and not isint(a):
+            hi[a]=min(hi.get(a,b[1]-strict),b[1]-strict)
+            if f[0]=='eq': lo[a]=max(lo.get(a,b[1]),b[1])
+    return lo,hi
+def lin_range(t,facts):
+    """(lower, upper) of a term from atom bounds; None = unbounded"""
+    try: l=lin(t,facts)
+    except Exception: return (None,None)
+    lo,hi=atom_bounds(facts)
+    L=Fraction(0); U=Fraction(0)
+    for k,c in l.items():
+        if k==1:
+            L=None if L is None else L+c
+            U=None if U is None else U+c
+            continue
+        klo=lo.get(k); khi=hi.get(k)
+        if klo is None and isinstance(k,tuple) and k and k[0] in('satsub','absdiff','ncast'): klo=0
+        if klo is None and isinstance(k,tuple) and k and k[0]=='unk' and isinstance(k[1],str) and k[1].startswith('digits@'): klo=1
+        a_lo,a_hi=(klo,khi) if c>0 else (khi,klo)
+        L = None if (L is None or a_lo is None) else L+c*a_lo
+        U = None if (U is None or a_hi is None) else U+c*a_hi
+    return (L,U)
 def prove_lt(facts,x,y):
     for f in facts:
         if f[0]=='lt' and prove_le(facts,x,f[1]) and prove_le(facts,f[2],y): return True
     if isinstance(x,tuple) and isinstance(y,tuple) and x[0]=='int' and y[0]=='int': return x[1]<y[1]
     return False
 def contradicts(facts,f):
+    if f[0] in('lt','le'):
+        L,U=lin_range(('sub',f[1],f[2]),facts)      # a - b
+        if L is not None and (L>0 or (f[0]=='lt' and L>=0)): return True
     if f[0]=='lt': return prove_le(facts,f[2],f[1])
     if f[0]=='le': return prove_lt(facts,f[2],f[1])
     if f[0]=='eq': return prove_lt(facts,f[1],f[2]) or prove_lt(facts,f[2],f[1])
@@ -183,12 +243,14 @@ def prove_eq(facts,a,b):
         if la==lb: return True
         d={k:la.get(k,0)-lb.get(k,0) for k in set(la)|set(lb)}
         d={k:v for k,v in d.items() if v!=0}
+        vecs=[]
         for f in facts:
             if f[0]!='eq': continue
             lx=lin(f[1],[]); ly=lin(f[2],[])
-            e={k:lx.get(k,0)-ly.get(k,0) for k in set(lx)|set(ly)}
+            e={k:Fraction(lx.get(k,0))-Fraction(ly.get(k,0)) for k in set(lx)|set(ly)}
             e={k:v for k,v in e.items() if v!=0}
-            if e and (d==e or d=={k:-v for k,v in e.items()}): return True
+            if e: vecs.append(e)
+        if vecs and in_span({k:Fraction(v) for k,v in d.items()},vecs): return True
     except Exception: pass
     return prove_le(facts,a,b) and prove_le(facts,b,a)
 BIG=re.compile(r'BigInt|BigUint')
@@ -281,6 +343,13 @@ class An:
     def tyof(self,i): return self.fn.locals[i].replace("'_ ","").replace("'a ","").replace("'b ","").replace("'rhs ","")
     def mkarg(self,i):
         ty=self.tyof(i); x='x%d'%i
+        if re.match(r'^&?WithScale<',ty):
+            sc=('sc','arg%d'%i)
+            r=Rec(sc,IntV(sym('m%d'%i),sc),None,None,'arg%d'%i); r.symname='m%d'%i
+            return ('ref',r) if ty.startswith('&') else r
+        if re.search(r'NonZero<u64>$|NonZeroU64$',ty) and i in self.scale_params:
+            s0=('par',i)
+            return s0
         if DEC.match(ty):
             sc=('sc','arg%d'%i)
             if 'BigDecimalRef' in ty:
@@ -330,7 +399,7 @@ class An:
                 if isinstance(v,Rec):
                     n=p['n']
                     if n=='scale': v=v.scale
-                    elif n in('int_val','digits'): v=v.ival if v.ival is not None else UNK
+                    elif n in('int_val','digits','value'): v=v.ival if v.ival is not None else UNK
                     elif n=='sign': v=('signv',v.sign) if v.sign is not None else UNK
                     else: v=UNK
                 elif isinstance(v,tuple) and v and v[0]=='tuple': v=v[1][p['f']] if p['f']<len(v[1]) else UNK
@@ -434,6 +503,9 @@ class An:
                 if f:
                     if contradicts(s.facts,f): return False
                     s.facts.append(f)
+                    if f[0]=='le' and f[2]==TERM0:
+                        L,U=lin_range(f[1],s.facts)
+                        if L is not None and L>=0: s.facts.append(('eq',f[1],TERM0))
             else:
                 _,what,symn,c=v
                 if truth and symn is not None:
@@ -461,7 +533,10 @@ class An:
             a=self.deref(s,self.op(s,rv['a'])); b=self.deref(s,self.op(s,rv['b'])); bop=rv['bop']
             if isterm(a) and isterm(b):
                 if bop.startswith('Add'): v=('add',a,b)
-                elif bop.startswith('Sub'): v=('sub',a,b)
+                elif bop.startswith('Sub'):
+                    v=('sub',a,b)
+                    lty=(rv['a'].get('pl',{}).get('ty') or rv['a'].get('ty') or '').lstrip('&')
+                    if 'WithOverflow' in bop and lty.startswith('u'): s.facts.append(('le',TERM0,v))
                 elif bop.startswith('Mul') and b[0]=='int': v=('mulc',a,b[1])
                 elif bop.startswith('Mul') and a[0]=='int': v=('mulc',b,a[1])
                 elif bop in('Lt','Le','Gt','Ge','Eq','Ne'): v=('bool',bop.lower(),a,b)
@@ -483,6 +558,7 @@ class An:
         elif r=='agg':
             kind=rv['kind']; ops=[self.op(s,o) for o in rv['ops']]
             if kind['a']=='tuple': v=('tuple',ops)
+            elif kind['a']=='adt' and kind['adt'].endswith('Cow') and ops: v=ops[0]
             elif kind['a']=='adt' and kind['adt'] in('BigDecimal','BigDecimalRef'):
                 f=kind['fields']; sc=ops[f.index('scale')]
                 iv=self.deref(s,ops[f.index('int_val')] if 'int_val' in f else ops[f.index('digits')])
@@ -531,6 +607,17 @@ class An:
                 self.viol.append('POWER OF TEN: returns %s * 10^(%s), not 10^(%s) facts=%s'%(pshow(red(val)),show(out.dim),show(tgt),[(f[0],show(f[1]),show(f[2])) for f in s.facts][:6]))
             else: self.ok+=1
             return
+        if kind=='dims':
+            out=self.deref(s,s.store.get(0,UNK))
+            if not isinstance(out,Rec): self.undec.append('ret not rec: %r'%(out,)); return
+            if out.ival is None: self.undec.append('returned integer not tracked'); return
+            vz=out.ival.val
+            if isinstance(vz,dict):
+                for k_,v_ in s.subst.items(): vz=psub_sym(vz,k_,v_)
+                if red(vz)=={}: self.ok+=1; return      # zero fits every scale
+            if not prove_eq(s.facts,out.ival.dim,out.scale):
+                self.viol.append('SCALE BOOKKEEPING: the returned integer has dimension %s but is labelled with scale %s facts=%s'%(show(out.ival.dim),show(out.scale),[(f[0],show(f[1]),show(f[2])) for f in s.facts if f[0]=='eq'][:4])); return
+            self.ok+=1; return
         if kind in('rescale','scale-only'):
             if not isinstance(out,Rec): self.undec.append('ret not rec: %r'%(out,)); return
             tgt=('par',sorted(self.scale_params)[0])
@@ -600,12 +687,31 @@ class An:
         elif re.search(r'cmp::min$|cmp::Ord::min$',d) and T(0) and T(1): v=('min',T(0),T(1))
         elif re.search(r'saturating_sub$',d) and T(0) and T(1): v=('satsub',T(0),T(1))
         elif re.search(r'arithmetic::diff$',d) and T(0) and T(1): v=('tuple',[('ord',T(0),T(1)),('absdiff',T(0),T(1))])
+        elif re.search(r'NonZero(::<[^>]*>)?::get$',d) and args and isterm(args[0]): v=args[0]
+        elif re.search(r'ops::Deref::deref$|ops::DerefMut::deref_mut$|convert::AsRef::as_ref$|borrow::Borrow::borrow$',d) and raw and isinstance(args[0],(IntV,Rec)): v=raw[0]
+        elif re.search(r'ops::Neg::neg$',d) and args and isterm(args[0]): v=('sub',TERM0,args[0])
+        elif re.search(r'Cow::to_mut$|Cow<.*>::to_mut$|borrow::Cow.*::to_mut$',d) and args: v=raw[0] if isinstance(self.deref(s,raw[0]),IntV) else args[0]
+        elif re.search(r'multiply_by_ten_to_the_uint$',res) and len(args)==2 and isinstance(args[0],IntV) and isterm(args[1]):
+            k=args[1]
+            if not prove_le(s.facts,TERM0,k):
+                if self.fail('POW10 exponent not provably >=0 at line %d: %s'%(line,show(k)),'le',TERM0,k): s.facts.append(('le',TERM0,k))
+            args[0].dim=('add',args[0].dim,k); v=('int',0)
+        elif re.search(r'Roots::(nth_root|sqrt|cbrt)$|BigU?int::(nth_root|sqrt|cbrt)$',d) and args and isinstance(args[0],IntV):
+            n_=3 if d.endswith('cbrt') else 2 if d.endswith('sqrt') else (args[1][1] if len(args)>1 and isinstance(args[1],tuple) and args[1][0]=='int' else None)
+            v=IntV('lossy',('mulc',args[0].dim,Fraction(1,n_)) if n_ else ('unk','root@%d'%line)); self.lossy_seen.append(line)
+        elif re.search(r'Integer::div_rem$',d) and len(args)==2 and isinstance(args[0],IntV) and isinstance(args[1],IntV):
+            v=('tuple',[IntV('lossy',('sub',args[0].dim,args[1].dim) if args[1].dim!=TERM0 else args[0].dim),IntV('lossy',args[0].dim)]); self.lossy_seen.append(line)
+        elif re.search(r'count_decimal_digits(_uint)?$',res): v=('unk','digits@%d'%line); s.facts.append(('le',('int',1),v))
         elif re.search(r'(core|std)::num::.*::pow$',d) and len(args)==2 and args[0]==('int',10) and isterm(args[1]):
             v=IntV(P(1),args[1]); v.pow10=True
         elif re.search(r'Integer::div_rem$',d) and len(args)==2 and isterm(args[0]) and isinstance(args[1],tuple) and args[1] and args[1][0]=='int' and args[1][1]>0:
             q=('unk','q@%d'%line); r_=('unk','r@%d'%line); c=args[1][1]
             s.facts.append(('eq',args[0],('add',('mulc',q,c),r_)))
-            s.facts.append(('le',TERM0,q)); s.facts.append(('le',TERM0,r_)); s.facts.append(('le',r_,('int',c-1)))
+            aty=(t['args'][0].get('pl',{}).get('ty') or '').lstrip('&')
+            if aty.startswith('i'):
+                s.facts.append(('le',('int',-(c-1)),r_)); s.facts.append(('le',r_,('int',c-1)))     # truncated division: |r| < c, sign of the dividend
+            else:
+                s.facts.append(('le',TERM0,q)); s.facts.append(('le',TERM0,r_)); s.facts.append(('le',r_,('int',c-1)))
             v=('tuple',[q,r_])
         elif re.search(r'arithmetic::ten_to_the(_uint|_u64)?$',res):
             k=T(0)
@@ -656,8 +762,8 @@ class An:
             v=Rec(Tt if Tt is not None else ('unk','new'), iv if isinstance(iv,IntV) else None,None,None,'new@%d'%line)
         elif re.search(r'BigInt::from_biguint$',res):
             sg=args[0]; mag=args[1]
-            if isinstance(mag,IntV) and not isinstance(mag.val,dict):
-                v=IntV(mag.val,mag.dim)
+            if isinstance(mag,IntV) and (not isinstance(mag.val,dict) or self.kind=='dims'):
+                v=IntV(mag.val,mag.dim)      # dimension bookkeeping only: the sign does not change the dimension
             elif isinstance(mag,IntV):
                 if isinstance(sg,tuple) and sg and sg[0]=='signv': v=IntV(red(pmul(sg[1],mag.val)),mag.dim)
                 elif isinstance(sg,tuple) and sg and sg[0]=='const' and 'Plus' in str(sg[1]): v=IntV(mag.val,mag.dim)
@@ -680,6 +786,8 @@ class An:
             v=IntV(absval(args[0].val) if isinstance(args[0].val,dict) else args[0].val,args[0].dim)
         elif re.search(r'Integer::is_even$',d) and args and isinstance(args[0],IntV):
             v=('test','is_even',self.single_sym(args[0].val) if isinstance(args[0].val,dict) else None,None)
+        elif tr in ('std::ops::AddAssign','std::ops::Add','std::ops::SubAssign','std::ops::Sub') and len(args)==2 and isinstance(args[0],IntV) and args[0].val=='lossy' and not isinstance(args[1],(IntV,Rec)):
+            v=('int',0) if tr.endswith('Assign') else args[0]      # +/- a small unit in the last place of an already inexact integer
         elif tr in OPS and len(args)==2 and any(isinstance(x,IntV) for x in args[:2]) and all(isinstance(x,IntV) or (isinstance(x,tuple) and x and x[0]=='int') for x in args[:2]):
             # big integer (op) primitive literal
             args=[x if isinstance(x,IntV) else IntV(P(x[1]),TERM0) for x in args[:2]]
@@ -729,7 +837,7 @@ class An:
                     tgt.ival=None; tgt.val=r; tgt.scale=('unk','after-assign@%d'%line)
                 v=('int',0)
             else: v=Rec(('unk','op@%d'%line),None,r,None,'op@%d'%line)
-        elif re.search(r'Zero::is_zero$|BigDecimalRef::<.*>::is_zero$',res) or re.search(r'Zero::is_zero$',d):
+        elif re.search(r'Zero::is_zero$|BigDecimalRef::<.*>::is_zero$|WithScale::<.*>::is_zero$',res) or re.search(r'Zero::is_zero$',d):
             x=args[0]
             if isinstance(x,Rec): v=('test','is_zero',getattr(x,'symname',None) if x.val is None or self.single_sym(x.val) or (x.sign is not None) else None,0)
             elif isinstance(x,IntV): v=('test','is_zero',self.single_sym(x.val),0)
